@@ -11,7 +11,7 @@ Expressions
   s.count('c')                  List.count 'c' s    (one-character literal only)
   'c' in s / 'c' not in s       List.elem 'c' s     (one-character literal on the left, s a str)
   s.split('c')                  Py.splitChar 'c' s  (one-character literal separator)
-  int(s)                        Py.Small.intOfStr s (str: may raise ValueError);  int(i) = i
+  int(s)                        Py.intOfStr s (str: may raise ValueError);  int(i) = i
   None                          none : Option _     (type opt[T])
   x is None / x is not None     Option.isNone x / Option.isSome x   (x of type opt[T])
   max(xs) / min(xs)             Py.Small.maxOf / minOf (list of int; ValueError on the empty list)
@@ -32,6 +32,7 @@ import ast
 
 from harness.py2lean import (FuncCompiler, Ex, TV, prune, parse_type, lean_char, lean_ident, indent_rest,
                              INT, NAT, BOOL, STR)
+from harness.py2lean import lean_str as P_lean_str
 
 AMBIG = '?'
 
@@ -44,9 +45,9 @@ _ZEROS_OK = []
 
 
 def check_decimal_zeros(comp, node):
-    """`Py.Small.decimalZeros` (PyPrelude.lean) must be the decimal-digit runs of the `unicodedata` of this
+    """`Py.decimalZeros` (PyPrelude.lean; the non-ASCII runs) must be the decimal-digit runs of the `unicodedata` of this
     interpreter (the one pybufrkit runs under), and int() must have the 4300-digit default limit; otherwise
-    `int()` is not translated (broken tie), because `Py.Small.intOfStr` would not be what `int` does here."""
+    `int()` is not translated (broken tie), because `Py.intOfStr` would not be what `int` does here."""
     import os
     import re
     import sys
@@ -56,10 +57,10 @@ def check_decimal_zeros(comp, node):
         return
     path = os.path.join(py2lean.VERIF, 'lean', 'BufrModel', 'Gen', 'PyPrelude.lean')
     text = open(path, encoding='utf-8').read()
-    m = re.search(r'def decimalZeros : List Nat := \[(.*?)\]', text, re.S)
+    m = re.search(r'def decimalZeros : List Nat :=\s*\[(.*?)\]', text, re.S)
     if not m:
-        comp.bad(node, 'int(): Py.Small.decimalZeros not found in PyPrelude.lean')
-    table = [int(x, 16) for x in re.findall(r'0x[0-9a-fA-F]+', m.group(1))]
+        comp.bad(node, 'int(): Py.decimalZeros not found in PyPrelude.lean')
+    table = [0x30] + [int(x, 16) for x in re.findall(r'0x[0-9a-fA-F]+', m.group(1))]   # the table lists the non-ASCII runs
     zeros = [c for c in range(0x110000) if unicodedata.category(chr(c)) == 'Nd' and unicodedata.decimal(chr(c)) == 0]
     ok = all(unicodedata.decimal(chr(z + i), None) == i for z in zeros for i in range(10))
     nd = sum(1 for c in range(0x110000) if unicodedata.category(chr(c)) == 'Nd')
@@ -68,7 +69,7 @@ def check_decimal_zeros(comp, node):
                  % unicodedata.unidata_version)
     limit = getattr(sys, 'get_int_max_str_digits', lambda: None)()
     if limit != 4300:
-        comp.bad(node, 'int(): sys.get_int_max_str_digits() is %r, Py.Small.intMaxStrDigits is 4300' % (limit,))
+        comp.bad(node, 'int(): sys.get_int_max_str_digits() is %r, Py.intMaxStrDigits is 4300' % (limit,))
     _ZEROS_OK.append(True)      # the table does not change within one process
 
 
@@ -403,6 +404,22 @@ class SmallCompiler(FuncCompiler):
 
     def e_Call(self, e):
         f = e.func
+        if self.is_isinstance_slice(e):
+            a = self.expr(e.args[0])
+            t = prune(a.ty)
+            if t == ('intorslice',):
+                a = self.lift([a], lambda c: '(some %s)' % c[0], ('opt', t))
+            elif isinstance(t, TV) or t[0] != 'opt' or prune(t[1]) != ('intorslice',):
+                self.bad(e, 'isinstance(x, slice) on a value that is not declared int-or-slice')
+            return self.lift([a], lambda c: '(Py.Small.isSlice %s)' % c[0], BOOL)
+        pm = self.pure_self_call(e)
+        if pm is not None:
+            lname, params, rty, raises = pm
+            if len(e.args) != len(params):
+                self.bad(e, 'call of self.%s with %d arguments' % (f.attr, len(e.args)))
+            args = [self.coerce(self.to_int(self.expr(a)), t, e) for a, t in zip(e.args, params.values())]
+            return self.lift(args, lambda c: '(%s self %s)' % (lname, ' '.join(c)) if c else '(%s self)' % lname,
+                             rty, result_raises=raises)
         if isinstance(f, ast.Name) and f.id not in self.names and not e.keywords:
             if f.id == 'bin' and len(e.args) == 1:
                 a = self.expr(e.args[0])
@@ -417,7 +434,7 @@ class SmallCompiler(FuncCompiler):
                     return a
                 if k == 'str':
                     check_decimal_zeros(self, e)
-                    return self.lift([a], lambda c: '(Py.Small.intOfStr %s)' % c[0], INT, result_raises=True)
+                    return self.lift([a], lambda c: '(Py.intOfStr %s)' % c[0], INT, result_raises=True)
                 self.bad(e, 'int() of a %s' % k)
             if f.id in ('max', 'min') and len(e.args) == 1:
                 a = self.expr(e.args[0])
@@ -433,6 +450,13 @@ class SmallCompiler(FuncCompiler):
                 if f.id == 'len':
                     return self.lift([a], lambda c: '(List.length (Py.Small.distinct %s))' % c[0], NAT)
                 return self.lift([a], lambda c: '(Py.Small.sortedSet %s)' % c[0], a.ty)
+        if isinstance(f, ast.Attribute) and f.attr == 'get' and len(e.args) == 2 and not e.keywords:
+            recv = self.expr(f.value)
+            if self.kind(recv, f.value) == 'dict':
+                td = prune(recv.ty)
+                k = self.coerce(self.to_int(self.expr(e.args[0])), td[1], e)
+                d = self.coerce(self.to_int(self.expr(e.args[1])), td[2], e)
+                return self.lift([recv, k, d], lambda c: '(Py.Small.dictGet %s %s %s)' % (c[0], c[1], c[2]), td[2])
         if isinstance(f, ast.Attribute) and not e.keywords and not (
                 f.attr == 'format' and isinstance(f.value, ast.Constant)):
             if f.attr in ('count', 'split') and len(e.args) == 1:
@@ -445,6 +469,123 @@ class SmallCompiler(FuncCompiler):
                         return self.lift([recv], lambda c: '(List.count %s %s)' % (ch, c[0]), NAT)
                     return self.lift([recv], lambda c: '(Py.splitChar %s %s)' % (ch, c[0]), ('list', STR))
         return FuncCompiler.e_Call(self, e)
+
+    # ---------------------------------------------------------------------------------------------
+    # round 2: read-only methods on objects (dataquery.NodePath.__str__ / slice_to_str, descriptors.__str__)
+    pure_methods = {}      # method name -> (lean name, params {name: type}, result type, raises)
+
+    def named_fields(self, ty):
+        t = prune(ty)
+        if not isinstance(t, TV) and t[0] == 'named':
+            nts = getattr(self.gen, 'namedtuples', {})
+            if t[1] in nts:
+                return nts[t[1]]
+        return None
+
+    def e_Attribute(self, e):
+        # `local.field` of a namedtuple; `x.start / .stop / .step` of an int-or-slice value
+        if not (isinstance(e.value, ast.Name) and e.value.id == 'self'):
+            base = self.expr(e.value)
+            fields = self.named_fields(base.ty)
+            if fields is not None:
+                if e.attr not in fields:
+                    self.bad(e, 'namedtuple has no field %s' % e.attr)
+                return self.lift([base], lambda c: '%s.%s' % (c[0], lean_ident(e.attr)), fields[e.attr])
+            t = prune(base.ty)
+            if not isinstance(t, TV) and e.attr in ('start', 'stop', 'step'):
+                if t == ('intorslice',):
+                    base = self.some(base) if False else self.lift([base], lambda c: '(some %s)' % c[0], ('opt', t))
+                    t = prune(base.ty)
+                if t[0] == 'opt' and prune(t[1]) == ('intorslice',):
+                    fn = 'Py.Small.slice' + e.attr.capitalize()
+                    return self.lift([base], lambda c: '(%s %s)' % (fn, c[0]), ('opt', INT), result_raises=True)
+        return FuncCompiler.e_Attribute(self, e)
+
+    def is_isinstance_slice(self, t):
+        return (isinstance(t, ast.Call) and isinstance(t.func, ast.Name) and t.func.id == 'isinstance'
+                and 'isinstance' not in self.names and len(t.args) == 2 and not t.keywords
+                and isinstance(t.args[1], ast.Name) and t.args[1].id == 'slice' and 'slice' not in self.names
+                and not (t.args[1].id in self.mod.assigns or t.args[1].id in self.mod.funcs or t.args[1].id in self.mod.classes))
+
+    def fmt_str(self, node):
+        """`'{}'.format(x)` = `str(x)` for the printable types; a conditional expression is printed branch by
+        branch (its branches may have different types: `slc.start if slc.start is not None else ''`)"""
+        if isinstance(node, ast.IfExp):
+            c = self.as_bool(self.expr(node.test), node.test)
+            a, b = self.fmt_str(node.body), self.fmt_str(node.orelse)
+            if a.raises or b.raises:
+                ac = a.code if a.raises else '(pure %s)' % a.code
+                bc = b.code if b.raises else '(pure %s)' % b.code
+                return self.lift([c], lambda k: '(if %s then %s else %s)' % (k[0], ac, bc), STR, result_raises=True)
+            return self.lift([c], lambda k: '(if %s then %s else %s)' % (k[0], a.code, b.code), STR)
+        a = self.expr(node)
+        t = prune(a.ty)
+        if isinstance(t, TV):
+            self.bad(node, 'cannot infer the type of a format() argument')
+        if t[0] == 'str':
+            return a
+        if t[0] == 'nat':
+            return self.lift([a], lambda c: '(Py.strOfNat %s)' % c[0], STR)
+        if t[0] == 'int':
+            return self.lift([a], lambda c: '(Py.strOfInt %s)' % c[0], STR)
+        if t == ('intorslice',):
+            return self.lift([a], lambda c: '(Py.Small.strOfIntOrSlice %s)' % c[0], STR)
+        if t[0] == 'opt':
+            inner = prune(t[1])
+            fn = {('str',): 'Py.Small.strOfOptStr', ('int',): 'Py.Small.strOfOptInt',
+                  ('intorslice',): 'Py.Small.strOfOptIntOrSlice'}.get(inner if not isinstance(inner, TV) else None)
+            if fn:
+                return self.lift([a], lambda c: '(%s %s)' % (fn, c[0]), STR)
+        self.bad(node, 'format() of a value of type %s' % self.show(t))
+
+    def format_call(self, e, fmt):
+        import string as _string
+        try:
+            parsed = list(_string.Formatter().parse(fmt))
+        except ValueError as err:
+            self.bad(e, 'format string: %s' % err)
+        plain = (not e.keywords and not any(isinstance(a, ast.Starred) for a in e.args)
+                 and all(field in (None, '') and not spec and conv is None for _, field, spec, conv in parsed)
+                 and sum(1 for _, field, _, _ in parsed if field == '') == len(e.args))
+        if not plain:
+            return FuncCompiler.format_call(self, e, fmt)
+        pieces, i = [], 0
+        for lit, field, spec, conv in parsed:
+            if lit:
+                pieces.append(Ex(P_lean_str(lit), STR))
+            if field is None:
+                continue
+            pieces.append(self.fmt_str(e.args[i]))
+            i += 1
+        if not pieces:
+            return Ex(P_lean_str(''), STR)
+        if len(pieces) == 1:
+            return pieces[0]
+        return self.lift(pieces, lambda c: '(' + ' ++ '.join(c) + ')', STR)
+
+    def pure_self_call(self, e):
+        f = e.func
+        if (isinstance(f, ast.Attribute) and isinstance(f.value, ast.Name) and f.value.id == 'self'
+                and self.self_attrs is not None and f.attr in self.pure_methods and not e.keywords
+                and not any(isinstance(a, ast.Starred) for a in e.args)):
+            return self.pure_methods[f.attr]
+        return None
+
+    def stores(self, stmts):
+        out = FuncCompiler.stores(self, stmts)
+        if 'self' in out:
+            # a call self.m(..) of a translated method that assigns no attribute does not change the object
+            real = set()
+            for st in stmts:
+                for n in ast.walk(st):
+                    if (isinstance(n, ast.Call) and isinstance(n.func, ast.Attribute) and isinstance(n.func.value, ast.Name)
+                            and n.func.value.id == 'self' and self.pure_self_call(n) is None):
+                        real.add('self')
+                    if isinstance(n, ast.Name) and n.id == 'self' and isinstance(n.ctx, (ast.Store, ast.Del)):
+                        real.add('self')
+            if 'self' not in real:
+                out.discard('self')
+        return out
 
     def e_ListComp(self, e):
         """adds: one `if` filter; `for i, v in enumerate(xs)`"""
@@ -585,3 +726,51 @@ def render_fragment(gen, fname, fs):
     text, raises = fc.render(doc)
     item = {'kind': 'fragment', 'name': '%s.%s:%s' % (fs['class'], fs['method'], fname), 'lines': [first, last], 'may_raise': raises}
     return text, item
+
+
+# =================================================================================================
+# read-only methods of a class whose record of attributes is generated elsewhere (a stateful class of the same
+# module) or here: SPEC key 'small_methods': {Class: {'attrs': {...}, 'own_self': bool, 'methods': {name: {...}}}}
+def render_small_methods(gen, spec, func_texts):
+    from harness import py2lean
+    mod = gen.mod
+    for cname, cs in spec.get('small_methods', {}).items():
+        cnodes = mod.classes.get(cname, [])
+        if len(cnodes) != 1:
+            raise py2lean.Py2LeanUnsupported(mod.relpath, 0, 'class %s not found exactly once' % cname)
+        attrs = {k: parse_type(v) for k, v in cs['attrs'].items()}
+        st = getattr(gen, 'stateful', {}).get(cname)
+        if st is not None:
+            for k, t in attrs.items():
+                if k not in st.attrs or prune(st.attrs[k]) != prune(t):
+                    raise py2lean.Py2LeanUnsupported(mod.relpath, cnodes[0], 'attribute %s.%s declared with two types' % (cname, k))
+        elif cs.get('own_self'):
+            lines = ['/-- the attributes of a `%s` instance that the translated methods read -/' % cname,
+                     'structure %s.Self where' % cname]
+            for k in cs['attrs']:
+                lines.append('  %s : %s' % (lean_ident(k), py2lean.lean_type(attrs[k])))
+            func_texts.append('\n'.join(lines))
+        defs = {}
+        for n in cnodes[0].body:
+            if isinstance(n, ast.FunctionDef):
+                defs.setdefault(n.name, []).append(n)
+        pure = {}
+        for mname, ms in cs['methods'].items():
+            if len(defs.get(mname, [])) != 1:
+                raise py2lean.Py2LeanUnsupported(mod.relpath, cnodes[0], 'method %s.%s not found exactly once' % (cname, mname))
+            node = defs[mname][0]
+            for n in ast.walk(node):
+                if isinstance(n, ast.Attribute) and isinstance(n.ctx, (ast.Store, ast.Del)):
+                    raise py2lean.Py2LeanUnsupported(mod.relpath, n, 'attribute assignment in a method declared read-only')
+            params = {p: parse_type(t) for p, t in ms.get('params', {}).items()}
+            lname = '%s.%s' % (cname, lean_ident(mname))
+            fc = SmallCompiler(mod, gen, node, lname, params, self_attrs=attrs,
+                               returns=parse_type(ms['returns']) if ms.get('returns') else None)
+            fc.spec = ms
+            fc.pure_methods = dict(pure)
+            a, b, _ = mod.src(node)
+            doc = '/-- %s:%d-%d  `%s.%s` -/' % (mod.relpath, a, b, cname, mname)
+            text, raises = fc.render(doc)
+            pure[mname] = (lname, params, prune(fc.ret_type), raises)
+            func_texts.append(text)
+            gen.items.append({'kind': 'method', 'name': '%s.%s' % (cname, mname), 'lines': [a, b], 'may_raise': raises})
